@@ -611,6 +611,18 @@ def _stress(g, key):
                 _FAILURES.append(f'replace_edge({a!r}, {b!r}, {c!r}, {d!r}) did not raise although the new pair is already joined')
             except Exception:  # noqa: BLE001
                 done.append('refused-replace-onto-existing')
+    # 12b. a directed edge named by its REVERSED pair is not there: every spelling of the removal must raise and leave it
+    if directed and h // 229 % 2:
+        a, b = directed[h // 233 % len(directed)]
+        if g.edge_exists(a, b) and not g.edge_exists(b, a):
+            for nm, f in (('delete_edge', lambda: g.delete_edge(b, a)), ('remove_edge', lambda: g.remove_edge(b, a)),
+                          ('remove_edge_by_pair', lambda: g.remove_edge_by_pair((b, a)))):
+                try:
+                    f()
+                    done.append('reversed-removal-accepted!')
+                    _FAILURES.append(f'{nm}({b!r}, {a!r}) did not raise although only the edge {a!r} -> {b!r} exists')
+                except Exception:  # noqa: BLE001
+                    done.append('refused-reversed-removal')
     # 12. refused removals / look-ups of things that are not there
     if names and h // 193 % 2:
         a = names[h // 197 % len(names)]
